@@ -358,6 +358,14 @@ def trim_cases(seed, count, repo_import, ai_mod, pysam, hdr):
                 v1 = (i1.read_exons, [getattr(i1.polya_info, nm_) for nm_ in POS_NAMES])
                 v2 = (i2.read_exons, [getattr(i2.polya_info, nm_) for nm_ in POS_NAMES])
                 out["padding_pairs"] = out.get("padding_pairs", 0) + 1
+                # the window of the padded end itself reaches 1-3 bases into the clip, so a chance A/T-rich random end may
+                # legitimately be judged differently there: only the positions of the OTHER end are compared in that case
+                same = (0, 1) if side == "right" else (2, 3)
+                if [v1[1][k] for k in same] != [v2[1][k] for k in same]:
+                    out["padding_same_side_differs"] = out.get("padding_same_side_differs", 0) + 1
+                    other = (2, 3) if side == "right" else (0, 1)
+                    v1 = ([], [v1[1][k] for k in other])
+                    v2 = ([], [v2[1][k] for k in other])
                 if v1 != v2:
                     out["viol"].append(("soft-clip-padding-changes-result:" + side, cigar_str(plain_cigar), a.reference_start,
                                         "as is: exons %s tails %s; with 80 padded bases at the %s end: exons %s tails %s" % (v1[0], v1[1], side, v2[0], v2[1]), ""))
@@ -553,6 +561,7 @@ def run(chk, scratch):
             trimmed += res.get("trimmed", 0)
             chk.count("hard_clip_pairs_compared", res.get("hard_clip_pairs", 0))
             chk.count("padding_pairs_compared", res.get("padding_pairs", 0))
+            chk.count("padding_pairs_same_side_differs", res.get("padding_same_side_differs", 0))
             chk.count("reads_with_exons_entirely_inside_a_tail", res.get("tail_only_exon_cases", 0))
             for k, v in res.get("classes", {}).items():
                 classes[k] = classes.get(k, 0) + v
